@@ -12,6 +12,9 @@ CollConf == [k \in Keys |-> IF k = 3 THEN 0 ELSE k]
 StrConf == [k \in Keys |-> k + 10]
 
 FullView == vars
+\* implementation state only (plus the two counters that bound and name the behaviours): used by the deeper
+\* configurations, which check only the invariants that do not read history variables
+ImplOnlyView == <<implVars, nextVal, ops>>
 
 (* Coverage goals: corner states the quick tier must always exercise on the real cache.  Each goal is
    handed to TLC as the invariant ~Goal; the counterexample TLC prints is a behaviour that reaches the
